@@ -38,6 +38,26 @@ M = [
     ("c05-simplify-one-left", "C05", "regexp_algorithms.py", "        elif isinstance(left, One):\n            result = right", "        elif isinstance(left, One):\n            result = left"),
     ("c05-simplify-zero-star", "C05", "regexp_algorithms.py", "        if isinstance(operand, (Zero, One)):\n            result = One()", "        if isinstance(operand, (Zero, One)):\n            result = operand"),
     ("c06-gnfa-no-star", "C06", "regexp_algorithms.py", "Concat(R1, Concat(Iteration(R2), R3))", "Concat(R1, Concat(R2, R3))"),
+    ("c07-split-range", "C07", "cfg_algorithms.py", "            for k in range(i, j):\n                if verbose: print('X[{}, {}] depends", "            for k in range(i + 1, j):\n                if verbose: print('X[{}, {}] depends"),
+    ("c07-overwrite-cell", "C07", "cfg_algorithms.py", "                    X[i, j] |= set(A for A in V if [B, C] in P[A])", "                    X[i, j] = set(A for A in V if [B, C] in P[A])"),
+    ("c07-eps-unconverted", "C07", "cfg_algorithms.py", "    if not G.is_chomsky():\n        G = cfg_to_chomsky(G)\n        if verbose:", "    if w == '':\n        return Rule(G.S, Alternative([])) in G.R\n    if not G.is_chomsky():\n        G = cfg_to_chomsky(G)\n        if verbose:"),
+    ("c08-nullable-drop", "C08", "cfg_algorithms.py", "        result = result + y\n", "        result = result + y[:1]\n"),
+    ("c08-unit-first-only", "C08", "cfg_algorithms.py", "                if not r1 in R1:\n                    R1.append(r1)", "                if not r1 in R1:\n                    R1.append(r1)\n                    break"),
+    ("c08-fresh-26", "C08", "cfg_algorithms.py", "        while A in V:\n            A = Variable('{}{}'.format(hint, index))\n            index = index + 1\n        return A", "        return A"),
+    ("c08-no-deepcopy", "C08", "cfg_algorithms.py", "def cfg_to_chomsky(G: CFG, verbose: bool = False) -> CFG:\n    G = copy.deepcopy(G)", "def cfg_to_chomsky(G: CFG, verbose: bool = False) -> CFG:\n    G = copy.copy(G)"),
+    ("c08-eps-keep-start-only-if-first", "C08", "cfg_algorithms.py", "            if not symbols and rule.variable in W - {S}:", "            if not symbols and rule.variable in W:"),
+    ("c09-pop-ignores-top", "C09", "pda_algorithms.py", "    return u == P.epsilon or (stack and stack[-1] == u)", "    return u == P.epsilon or bool(stack)"),
+    ("c09-replace-keeps-top", "C09", "pda_algorithms.py", "            return stack[:-1] + [v]", "            return stack + [v]"),
+    ("c09-no-final-closure", "C09", "pda_algorithms.py", "    for a in w:\n        R = pda_do_transition(P, Symbol(a), R)\n        R = pda_epsilon_closure(P, R)\n    return any(r.q in F for r in R)", "    for a in w:\n        R = pda_epsilon_closure(P, R)\n        R = pda_do_transition(P, Symbol(a), R)\n    return any(r.q in F for r in R)"),
+    ("c09-limit-off-by-two", "C09", "pda_algorithms.py", "    while len(todo) > 0 and iteration < max_iterations:", "    while len(todo) > 0 and iteration < max_iterations - 2:"),
+    ("c10-pushpop-replace-pushes-u", "C10", "pda_algorithms.py", "                delta1[q_mid, epsilon, epsilon].add((q, v))", "                delta1[q_mid, epsilon, epsilon].add((q, u))"),
+    ("c10-one-accepting-no-clear", "C10", "pda_algorithms.py", "        delta[q, epsilon, epsilon].add((q_accept, epsilon))\n\n    F.clear()\n    F.add(q_accept)", "        delta[q, epsilon, epsilon].add((q_accept, epsilon))\n\n    F.add(q_accept)"),
+    ("c10-cfg-no-app-eps", "C10", "pda_algorithms.py", "    for p in Q:\n        App = variable(p, p)\n        R.append(make_rule(App, []))", "    for p in sorted(Q)[1:]:\n        App = variable(p, p)\n        R.append(make_rule(App, []))"),
+    ("c10-drain-only-first-symbol", "C10", "pda_algorithms.py", "    for X in Gamma - {stack_bottom}:\n        for q in F:", "    for X in sorted(Gamma - {stack_bottom})[:1]:\n        for q in F:"),
+    ("c11-left-end", "C11", "tm_algorithms.py", "    head1 = max(head - 1, 0) if d == 'L' else head + 1", "    head1 = head - 1 if d == 'L' else head + 1"),
+    ("c11-reject-writes-blank", "C11", "tm_algorithms.py", "        q, b, d = T.q_reject, a, Direction('R')", "        q, b, d = T.q_reject, T.blank, Direction('R')"),
+    ("c11-budget-plus-one", "C11", "tm_algorithms.py", "    for _ in range(max_steps):\n        q, head = tm_do_transition(T, q, tape, head)\n        if q == q_accept:\n            return True", "    for _ in range(max_steps + 1):\n        q, head = tm_do_transition(T, q, tape, head)\n        if q == q_accept:\n            return True"),
+    ("c11-trace-no-copy", "C11", "tm_algorithms.py", "        q, head = tm_do_transition(T, q, tape, head)\n        result.append((q, tape[:], head))", "        q, head = tm_do_transition(T, q, tape, head)\n        result.append((q, tape, head))"),
     ("c06-gnfa-overwrite", "C06", "regexp_algorithms.py", "            delta1[q, q1] = regexp.Sum(delta1[q, q1], regexp.Symbol(a))", "            delta1[q, q1] = regexp.Symbol(a)"),
 ]
 
